@@ -31,7 +31,7 @@ type c08Shape struct {
 	DstExt   bool   `json:"dst_ext"`
 	Alias    bool   `json:"alias,omitempty"`
 	ExtraSet int    `json:"extra_set,omitempty"` // 1: additional arguments of unnamed composite types that mention named types
-	StyleAt  string `json:"style_at,omitempty"` // "iface": the style notation sits on the interface
+	StyleAt  string `json:"style_at,omitempty"`  // "iface": the style notation sits on the interface
 	Name     string `json:"name"`
 	ExpParam string `json:"exp_params,omitempty"`
 }
